@@ -95,8 +95,8 @@ func (s *Store) VerifPendingProposals() []uint64 {
 	cp.mu.Lock()
 	defer cp.mu.Unlock()
 	out := make([]uint64, 0, len(cp.proposals))
-	for id := range cp.proposals {
-		out = append(out, id)
+	for key := range cp.proposals {
+		out = append(out, key.id)
 	}
 	return out
 }
@@ -116,10 +116,10 @@ func VerifNewPipeline(applier func(*pb.RaftCmdRequest) (*pb.RaftCmdResponse, err
 // NextID calls nextProposalID.
 func (v *VerifPipeline) NextID(term uint64) uint64 { return v.cp.nextProposalID(term) }
 
-// Register calls registerProposal and remembers the waiter under token.
+// Register calls registerRegionProposal and remembers the waiter under token.
 // It reports (registered, duplicate).
-func (v *VerifPipeline) Register(id, token uint64) (bool, bool) {
-	prop, err := v.cp.registerProposal(id)
+func (v *VerifPipeline) Register(region, id, token uint64) (bool, bool) {
+	prop, err := v.cp.registerRegionProposal(region, id)
 	if err != nil {
 		return false, true
 	}
@@ -130,8 +130,8 @@ func (v *VerifPipeline) Register(id, token uint64) (bool, bool) {
 	return true, false
 }
 
-// Remove calls removeProposal.
-func (v *VerifPipeline) Remove(id uint64) { v.cp.removeProposal(id) }
+// Remove calls removeRegionProposal.
+func (v *VerifPipeline) Remove(region, id uint64) { v.cp.removeRegionProposal(region, id) }
 
 // Apply calls applyEntries.
 func (v *VerifPipeline) Apply(entries []myraft.Entry) error { return v.cp.applyEntries(entries) }
@@ -160,8 +160,8 @@ func (v *VerifPipeline) Pending() []uint64 {
 	v.cp.mu.Lock()
 	defer v.cp.mu.Unlock()
 	out := make([]uint64, 0, len(v.cp.proposals))
-	for id := range v.cp.proposals {
-		out = append(out, id)
+	for key := range v.cp.proposals {
+		out = append(out, key.id)
 	}
 	return out
 }
